@@ -234,4 +234,70 @@ def OrdersOf : List Stmt → List (List Name) → Prop
 def ValidOrders (other : List Stmt) (start : Nat) (orders : List (List Name)) : Prop :=
   OrdersOf (other.drop start) orders
 
+
+/-! ## Part C — rendering an observed value into an exported assertion
+
+`assertion_to_ast._value_to_cst` (the right-hand side of an `ObjectAssertion`, i.e. text that is
+written into the test file).  Leaves (`None`, `bool`, `int`, `str`, `bytes`, enum members, float and
+complex literals) are abstracted to the text CPython's `repr`/libcst produces for them; the model
+covers the structure: list / tuple (with the one-element form `(x, )`) / dict (insertion order) /
+set.  A `set` node lists its members; the order in which the code sees them is `π` applied to the
+rendered members (`HashOrder π`: some permutation, chosen by PYTHONHASHSEED for `str` members).
+`sortSets = true` is the repaired renderer (elements emitted in the order of their rendered text),
+`false` the original one (`list(value)`, i.e. hash order). -/
+
+inductive PyVal where
+  | atom (text : String)
+  | list (elems : List PyVal)
+  | tuple (elems : List PyVal)
+  | set (elems : List PyVal)
+  /-- `keys[i] : vals[i]` in insertion order -/
+  | dict (keys : List PyVal) (vals : List PyVal)
+  deriving Repr
+
+def joinComma (ts : List String) : String := ", ".intercalate ts
+
+mutual
+/-- The code libcst generates for `_value_to_cst(value)` (before `black` runs over the file). -/
+def render (sortSets : Bool) (π : List String → List String) : PyVal → String
+  | .atom t => t
+  | .list es => "[" ++ joinComma (renderAll sortSets π es) ++ "]"
+  | .tuple es =>
+    match renderAll sortSets π es with
+    | [t] => "(" ++ t ++ ", )"
+    | ts => "(" ++ joinComma ts ++ ")"
+  | .set es =>
+    let ts := π (renderAll sortSets π es)
+    if ts.isEmpty then "set()"
+    else "{" ++ joinComma (if sortSets then sortNames ts else ts) ++ "}"
+  | .dict ks vs =>
+    "{" ++ joinComma (List.zipWith (fun k v => k ++ ": " ++ v) (renderAll sortSets π ks)
+      (renderAll sortSets π vs)) ++ "}"
+def renderAll (sortSets : Bool) (π : List String → List String) : List PyVal → List String
+  | [] => []
+  | v :: vs => render sortSets π v :: renderAll sortSets π vs
+end
+
+/-! ## Part D — seeds of auxiliary PRNG streams
+
+Besides `randomness.RNG` the code creates private streams (`randomness.Random(x)`, e.g. the mutant
+sampling of `FirstOrderMutator._sample` when `--maximum-mutants` caps the mutation analysis).  The
+seed of such a stream is either the configured seed itself or something mixed with the hash of a
+string (`hash((seed, op.__name__))`), which PYTHONHASHSEED changes. -/
+
+inductive SeedSrc where
+  | config
+  | mixHash (name : String)
+  deriving Repr, DecidableEq
+
+/-- The seed handed to `randomness.Random(...)`; `h` is the interpreter's string hash. -/
+def subSeed (mix : Nat → Nat → Nat) (h : String → Nat) (seed : Nat) : SeedSrc → Nat
+  | .config => seed
+  | .mixHash n => mix seed (h n)
+
+/-- The seeds of the streams `FirstOrderMutator._select_mutations` creates: one stream seeded with
+`sampling_seed` iff a cap is set and the module yields more mutants than the cap. -/
+def samplingSeeds (seed : Nat) (total : Nat) (cap : Int) : List Nat :=
+  if 0 ≤ cap ∧ cap < (total : Int) then [seed] else []
+
 end PynguinModel.Repro
